@@ -25,7 +25,13 @@ RULE = ("Case = nc 1..400 x ns 1..400 x dtype f4/f8 x full-scale range (scalar p
         "generation, AP/LF) whose raw samples sit >= 2 counts below/above 98 % of the converter's maximum integer is read "
         "through spikeglx.Reader, saturation() gets Reader.range_volts as full scale, and the flags must equal the channel "
         "counts of raw samples beyond the limit. All flag patterns of length <= 10 (quick) / 13 (thorough) are "
-        "enumerated through one-channel recordings (voltage- and slew-driven). Non-trivial = some sample whose larger "
+        "enumerated through one-channel recordings (voltage- and slew-driven). Arguments and state between calls: the range "
+        "comes as python float, NumPy scalar, 0-d array, float32/float64/data-dtype array or python list; data and range are "
+        "read-only in a third of the cases; three cases in four call the function two or three times with the SAME data and "
+        "range objects (channels parked at 97 % / 95 % of full scale, i.e. between 0.98**3 and 0.98, on more than k0 channels, "
+        "so that a threshold drifting from call to call changes the flags) and demand the flags of the rule and the mute of "
+        "the first call every time; data and range must hold their original values after every call; one case in three calls "
+        "the function with unrelated arguments (3 channels, other taper width) first. Non-trivial = some sample whose larger "
         "count equals k0+1, or k0 >= 1 and equals k0, or a flagged run touching an end. Distinct = distinct case hash.")
 EXHAUSTIVE_NOTE = ("every flag pattern of length 1..10 (quick) / 1..13 (thorough) x odd taper widths is enumerated for the "
                    "mute sub-property; voltage arrays are sampled, not enumerated")
@@ -36,6 +42,12 @@ ASSUMPTIONS = [
     "proportion is compared on integer channel counts: 'more than proportion' means count >= k0+1 where k0 is the largest "
     "count whose correctly rounded quotient k0/nc does not exceed the proportion (DESIGN.md section 7)",
     "values closer than 8 eps (of the data dtype) to a threshold whose exact value is not representable are not asserted",
+    "the function is a pure function of its arguments: it keeps no state between calls and leaves the caller's data and "
+    "max_voltage untouched (the docstring lists them as inputs; decompress_destripe_cbin mutes the same chunk after the call "
+    "and a caller looping over chunks may hold the ranges in one array) - kinds C16.repeat_call, C16.args_modified; read-only "
+    "arrays (np.memmap(mode='r') chunks) are accepted as they are on the unchanged tree",
+    "a float32 range array with float64 data makes 0.98*range a single-precision product: margins of generated values and "
+    "the undecided band are then 64 / 8 eps of float32",
     "even taper widths have no centre sample: 'farther than the half width' is read as 'farther than width/2', the "
     "sine-window reference is not compared (its alignment is a convention), and 'zero on every flagged sample' is "
     "asserted under its own kind C16.mute_zero_on_flag.even_width (fails on the unchanged tree: known finding "
@@ -48,6 +60,8 @@ ENUM_M = {"quick": [1, 3, 5, 7, 9], "thorough": [1, 3, 5, 7, 9, 11, 13, 31]}
 
 TOL = 1e-9
 NS_MAX = 400
+EPS32 = float(np.finfo(np.float32).eps)
+PARKED = {"p97": 0.97, "p95": 0.95}
 GAINS = [50, 125, 250, 500, 1000, 1500, 2000, 3000]
 DECIMALS = [0.2, 0.2, 0.2, 0.05, 0.1, 0.25, 0.3, 0.5, 0.75, 0.9, 0.99, 1.0 / 3.0]
 FS = [30000, 2500, 30000.0, 29999.757983, 1.0]
@@ -106,7 +120,8 @@ def _case(draw):
             "seed": draw(st.integers(0, 2 ** 32 - 1))}
     # full-scale range
     case["rng_class"] = draw(st.sampled_from(["exact", "real"]))
-    case["rng_form"] = draw(st.sampled_from(["pyfloat", "npscalar", "array", "array", "array64", "array_uniform"]))
+    case["rng_form"] = draw(st.sampled_from(["pyfloat", "npscalar", "array", "array", "array64", "array_uniform",
+                                             "array32", "array0d", "list"]))
     if case["rng_class"] == "exact":
         case["rng_j"] = draw(st.integers(1, 20))
         case["rng_e"] = draw(st.integers(-20, 4))
@@ -130,8 +145,20 @@ def _case(draw):
                        st.integers(1, 15).map(lambda i: 2 * i)))
     case["M"] = m
     h = m // 2
-    case["n_hot"] = draw(st.sampled_from(["0", "k0", "k0+2", "all", "rand"]))
-    case["hot_mode"] = draw(st.sampled_from(["below", "at"]))
+    # calls with the same argument objects (data array, range array), read-only arguments, a call with other arguments first
+    case["calls"] = draw(st.sampled_from([1, 2, 3, 3]))
+    case["ro"] = draw(st.sampled_from(["", "", "", "d", "m", "dm"]))
+    case["prior"] = draw(st.sampled_from([0, 0, 1]))
+    if case["prior"]:
+        case["prior_M"] = draw(st.sampled_from([1, 3, 5, 9, 15, 31]))
+    if case["calls"] > 1:
+        # channels parked at 97 % / 95 % of full scale (between 0.98**3 and 0.98): a threshold that shrinks from call to
+        # call flags them, the property does not
+        case["n_hot"] = draw(st.sampled_from(["0", "k0", "k0+2", "k0+2", "all", "all", "rand"]))
+        case["hot_mode"] = draw(st.sampled_from(["below", "at", "p97", "p97", "p95", "p95"]))
+    else:
+        case["n_hot"] = draw(st.sampled_from(["0", "k0", "k0+2", "all", "rand"]))
+        case["hot_mode"] = draw(st.sampled_from(["below", "at", "p97", "p95"]))
     case["noise"] = draw(st.sampled_from(["zero", "small", "small"]))
     st_gap = st.one_of(st.sampled_from(sorted({0, 1, 2, h, h + 1, max(m - 1, 0), m, m + 1, 2 * h + 1})), st.integers(0, 40))
     st_edge = st.one_of(st.just(0), st.just(0), st_gap, st.integers(0, 150))
@@ -167,7 +194,9 @@ def _reader_case(draw):
     events = [{"t": draw(st.integers(0, spec["ns"] - 1)), "dk": draw(st.sampled_from([0, 1, 1, 2, "all"])),
                "sign": draw(st.sampled_from([1, -1, 0]))} for _ in range(nev)]
     return {"kind": "reader", "spec": spec, "k0": k0, "events": events, "seed": draw(st.integers(0, 2 ** 32 - 1)),
-            "M": draw(st.sampled_from([1, 3, 7, 7, 9])), "hot": draw(st.booleans())}
+            "M": draw(st.sampled_from([1, 3, 7, 7, 9])), "hot": draw(st.booleans()),
+            "calls": draw(st.sampled_from([1, 2, 3])), "hot_extra": draw(st.sampled_from([0, 1, 2, "all"])),
+            "ro": draw(st.sampled_from(["", "", "d", "m", "dm"]))}
 
 
 def strategy(tier):
@@ -305,6 +334,101 @@ def _check_depends_on_flags(ctx, sat, flags, mute, m):
 
 
 # ------------------------------------------------------------------------------------------------------------------
+# the caller's arguments: same objects over several calls, read-only, unchanged afterwards
+
+def _snapshot(a):
+    """Private copy of an argument the function could write to (ndarray, list); scalars are immutable."""
+    if isinstance(a, np.ndarray):
+        return a.copy()
+    if isinstance(a, list):
+        return list(a)
+    return a
+
+
+def _unchanged(a, a0):
+    if isinstance(a0, np.ndarray):
+        return a.shape == a0.shape and a.dtype == a0.dtype and bool(np.array_equal(a, a0))
+    if isinstance(a0, list):
+        return a == a0
+    return True
+
+
+def _freeze(ctx, ro, data, maxv):
+    """Read-only arguments, as a np.memmap(mode='r') chunk or a cached range array are."""
+    if "d" in ro:
+        data.setflags(write=False)
+        ctx.label("readonly_data")
+    if "m" in ro and isinstance(maxv, np.ndarray):
+        maxv.setflags(write=False)
+        ctx.label("readonly_max_voltage")
+
+
+def _check_args_intact(ctx, k, data, data0, maxv, maxv0):
+    """The voltages and the full-scale range belong to the caller (the pipeline mutes `data` after the call and reuses the
+    ranges for the next chunk): both must hold their original values after call number k."""
+    ok = ctx.check(_unchanged(data, data0), "C16.args_modified",
+                   lambda: f"the data array handed to saturation() was modified by call {k} "
+                           f"({int(np.sum(data != data0)) if data.shape == data0.shape else 'all'} of {data0.size} "
+                           f"values differ)")
+
+    def how():
+        a, a0 = np.asarray(maxv, dtype=float).ravel(), np.asarray(maxv0, dtype=float).ravel()
+        q = a / a0 if a.shape == a0.shape and a.size else np.r_[a, np.nan]
+        return (f"the max_voltage {type(maxv0).__name__} handed to saturation() was modified by call {k}: it now holds "
+                f"{float(np.min(q))!r} .. {float(np.max(q))!r} times the original full-scale voltages")
+    return ctx.check(_unchanged(maxv, maxv0), "C16.args_modified", how) and ok
+
+
+def _repeat_calls(ctx, kind, call, ncalls, flags, mute, decided, expected, intact):
+    """Calls 2..ncalls with the very same argument objects: the full-scale voltage is a constant the caller supplied, so the
+    flags must again be those of the rule (and of the first call, also on samples the oracle leaves undecided) and the mute
+    must be the one of the first call."""
+    ns = len(flags)
+    for k in range(2, ncalls + 1):
+        r = ctx.call(kind, call)
+        if r is ctx.CRASH or not _check_types(ctx, r, ns):
+            return
+        fk, mk = r
+        bad = (fk != flags) | (decided & (fk != expected))
+        if not ctx.check(not bad.any(), "C16.repeat_call",
+                         lambda: (f"call {k} with the same argument objects: flags differ from the rule / from call 1 at "
+                                  f"samples {np.flatnonzero(bad)[:8].tolist()} ({int(bad.sum())} of {ns}; call 1 flagged "
+                                  f"{int(flags.sum())} samples, call {k} flags {int(fk.sum())})")):
+            return
+        if isinstance(mk, np.ndarray) and isinstance(mute, np.ndarray) and mk.shape == mute.shape and mk.dtype.kind == "f":
+            d = float(np.max(np.abs(mk.astype(float) - mute.astype(float)))) if ns else 0.0
+            ctx.stat("mute_repeat_dev", d)
+            if not ctx.check(d <= 1e-12, "C16.repeat_call",
+                             lambda: f"call {k} with the same argument objects: mute differs from call 1 by {d:.3g}"):
+                return
+        else:
+            ctx.fail("C16.shape", f"call {k}: mute is {type(mk).__name__} of shape {getattr(mk, 'shape', None)}")
+            return
+        if not intact(k):
+            return
+
+
+def _prior_call(case, ctx, sat):
+    """A call with entirely different arguments (3 channels, scalar range 1, other taper width) before the case's own call:
+    nothing of it may leak into the next one. Its own flags are checked too."""
+    rng = np.random.default_rng([int(case["seed"]), 16])
+    nsp = int(rng.integers(1, 13))
+    fl = rng.random(nsp) < 0.4
+    pm = int(case.get("prior_M", 3))
+    x2, kw2 = _canonical(fl)
+    ctx.label("prior_call_other_arguments")
+    r = ctx.call("C16.call", sat, x2, mute_window_samples=pm, **kw2)
+    if r is ctx.CRASH or not _check_types(ctx, r, nsp):
+        return False
+    if not ctx.check(np.array_equal(r[0], fl), "C16.flags",
+                     lambda: (f"synthetic 3-channel recording: flags at {np.flatnonzero(r[0])[:10].tolist()} expected "
+                              f"{np.flatnonzero(fl)[:10].tolist()} (ns={nsp})")):
+        return False
+    _check_mute(ctx, r[0], r[1], pm)
+    return True
+
+
+# ------------------------------------------------------------------------------------------------------------------
 # pattern cases (enumerated)
 
 def _run_pattern(case, ctx):
@@ -339,7 +463,7 @@ def _run_pattern(case, ctx):
 def _ranges(case, rng, nc, npdt):
     """Per-channel full-scale range (float64 values representable in the data dtype) and the exact flag."""
     form = case["rng_form"]
-    per_channel = form in ("array", "array64") and nc > 1
+    per_channel = form in ("array", "array64", "array32", "list") and nc > 1
     if case["rng_class"] == "exact":
         j, e = case["rng_j"], case["rng_e"]
         if per_channel:
@@ -372,6 +496,12 @@ def _maxv_arg(case, r, npdt):
         return npdt(r[0])
     if form == "array64":
         return r.astype(float)
+    if form == "array32":
+        return r.astype(np.float32)  # what Reader.range_volts holds, whatever the dtype of the data
+    if form == "array0d" and uniform:
+        return np.array(r[0], dtype=npdt)
+    if form == "list":
+        return [float(v) for v in r]
     return r.astype(npdt)
 
 
@@ -381,6 +511,8 @@ def _build(case):
     nc = case["nc"]
     npdt = np.float32 if case["dtype"] == "f4" else np.float64
     eps = float(np.finfo(npdt).eps)
+    if case["rng_form"] == "array32":
+        eps = max(eps, EPS32)  # 0.98 * range is then computed in single precision: margins and bands in its eps
     delta = 64 * eps
     r, T, exact = _ranges(case, rng, nc, npdt)
     regime = case["regime"]
@@ -441,6 +573,8 @@ def _build(case):
     else:
         v_below = T * (1 - delta)
         v_edge = T * (1 + delta)
+    if case["hot_mode"] in PARKED:
+        v_below = r * PARKED[case["hot_mode"]]
 
     amp = 0.1 * min(L, Tmin)
     lev = np.zeros(nc)
@@ -566,7 +700,8 @@ def _run_data(case, ctx):
     if np.unique(b["r"]).size > 1:
         ctx.label("per_channel_ranges_differ")
     if b["nhot"]:
-        ctx.label("hot_channels_" + ("at" if b["exact"] and case.get("hot_mode") == "at" else "below"))
+        hm = case.get("hot_mode")
+        ctx.label("hot_channels_" + (hm if hm in PARKED else ("at" if b["exact"] and hm == "at" else "below")))
     if not decided.all():
         ctx.label("has_undecided_sample")
     vt = decided & (cv_lo == k0) & (cd_hi <= k0) & (k0 >= 1)
@@ -606,8 +741,30 @@ def _run_data(case, ctx):
     if case.get("layout") == "T":
         x = np.ascontiguousarray(x.T).T  # what the destriping pipeline passes: the transpose of a (ns, nc) chunk
         ctx.label("transposed_view")
-    r = ctx.call("C16.call", sat, x, maxv, v_per_sec=b["v_per_sec"], fs=case["fs"], proportion=p, mute_window_samples=m)
-    if r is ctx.CRASH or not _check_types(ctx, r, ns):
+    ncalls = case.get("calls", 1)
+    ctx.label(f"calls_{ncalls}")
+    if ncalls > 1:
+        # which of the repeated calls would flag a sample the property leaves alone if the threshold shrank by 2 % per call
+        for k in range(2, ncalls + 1):
+            if (exp_false & (np.sum(ax > Tc * (0.98 ** (k - 1) * (1 + band)), axis=0) >= need)).any():
+                ctx.label(f"call_{k}_sees_channels_between_{0.98 ** k:.3f}_and_0.98_of_range")
+    if case.get("prior"):
+        if not _prior_call(case, ctx, sat):
+            return
+    x0, maxv0 = _snapshot(x), _snapshot(maxv)
+    _freeze(ctx, case.get("ro", ""), x, maxv)
+
+    def call():
+        return sat(x, maxv, v_per_sec=b["v_per_sec"], fs=case["fs"], proportion=p, mute_window_samples=m)
+
+    def intact(k):
+        return _check_args_intact(ctx, k, x, x0, maxv, maxv0)
+
+    r = ctx.call("C16.call", call)
+    if r is ctx.CRASH:
+        return
+    ok = intact(1)
+    if not _check_types(ctx, r, ns):
         return
     flags, mute = r
     bad = decided & (flags != exp_true)
@@ -618,6 +775,8 @@ def _run_data(case, ctx):
                               f"{p!r} ({case['pmode']}) means more than {k0} channels; {int(bad.sum())} samples differ")
     _check_mute(ctx, flags, mute, m)
     _check_depends_on_flags(ctx, sat, flags, mute, m)
+    if ok and not bad.any():
+        _repeat_calls(ctx, "C16.call", call, ncalls, flags, mute, decided, exp_true, intact)
 
 
 def _run_reader(case, ctx):
@@ -633,7 +792,13 @@ def _run_reader(case, ctx):
     D = rng.integers(-under // 2, under // 2 + 1, size=(ns, nc)).astype(np.int16)
     k0 = case["k0"]
     if case["hot"]:
-        D[:, rng.permutation(nchan)[:k0]] = under  # k0 channels sit just below the limit all the time
+        # k0 channels sit just below the limit all the time (hot_extra more of them in the cases that call twice: 97.5 % of
+        # full scale stays unflagged however often the function is called)
+        extra = case.get("hot_extra", 0)
+        nhot = nchan if extra == "all" else min(nchan, k0 + extra)
+        D[:, rng.permutation(nchan)[:nhot]] = under
+        if nhot > k0:
+            ctx.label("reader_more_than_k0_channels_just_below")
     counts = np.zeros(ns, dtype=int)
     for ev in case["events"]:
         k = nchan if ev["dk"] == "all" else min(nchan, k0 + ev["dk"])
@@ -671,9 +836,33 @@ def _run_reader(case, ctx):
     ctx.check(np.allclose(rv[:nchan], s2v[:nchan] * maxint, rtol=1e-6, atol=0), "C16.reader.full_scale",
               lambda: f"range_volts {rv[:3]} is not volts-per-bit x {maxint} {s2v[:3] * maxint}")
     # flags far above any step of this data: the slew criterion is switched off
-    r = ctx.call("C16.saturation", vo.saturation, data, max_voltage=rv[:nchan], v_per_sec=1e9, fs=spec["fs"],
-                 proportion=p, mute_window_samples=case["M"])
-    if r is ctx.CRASH or not _check_types(ctx, r, ns):
+    if not ctx.check(isinstance(data, np.ndarray) and data.shape == (nchan, ns), "C16.shape",
+                     lambda: f"Reader returned {type(data).__name__} of shape {np.shape(data)} for {ns} x {nchan} samples"):
+        return
+    ncalls = case.get("calls", 1)
+    ctx.label(f"reader_calls_{ncalls}")
+    data0, rv0 = _snapshot(data), _snapshot(rv)
+    ro = case.get("ro", "")
+    if "d" in ro and data.flags.writeable:
+        data.setflags(write=False)
+    if "m" in ro and rv.flags.writeable:
+        rv.setflags(write=False)
+    if ro:
+        ctx.label("reader_readonly_" + ro)
+    rvc = rv[:nchan]  # a view of the array the caller holds (inherits its write flag), as in decompress_destripe_cbin
+
+    def call():
+        return vo.saturation(data, max_voltage=rvc, v_per_sec=1e9, fs=spec["fs"], proportion=p,
+                             mute_window_samples=case["M"])
+
+    def intact(k):
+        return _check_args_intact(ctx, k, data, data0, rv, rv0)
+
+    r = ctx.call("C16.saturation", call)
+    if r is ctx.CRASH:
+        return
+    ok = intact(1)
+    if not _check_types(ctx, r, ns):
         return
     sat, mute = np.asarray(r[0]).astype(bool), np.asarray(r[1], dtype=float)
     bad = sat != exp_flags
@@ -682,6 +871,8 @@ def _run_reader(case, ctx):
                       f"beyond 98 % of {maxint} at samples {np.where(bad)[0][:5].tolist()} (counts {counts[bad][:5].tolist()}, k0={k0})")
     if not bad.any():
         _check_mute(ctx, exp_flags, mute, case["M"])
+        if ok:
+            _repeat_calls(ctx, "C16.saturation", call, ncalls, r[0], r[1], np.ones(ns, bool), exp_flags, intact)
 
 
 def run_case(case, ctx):
